@@ -57,6 +57,7 @@ class Spec:
         self.epilogue = []
         self.props = []
         self.sigsubst = []
+        self.vacuous_ok = False
 
     def clone_for_arm(self, arm):
         s = Spec()
@@ -78,6 +79,7 @@ class Spec:
             s.rewrites += arm.rewrites
             s.assume = arm.assume
             s.extra = arm.extra
+            s.vacuous_ok = arm.vacuous_ok
         return s
 
 
@@ -234,6 +236,9 @@ class Expander:
                     cur.rewrites.append(['R12' if key == 'subst' else 'R12ALL', old.strip(), new.strip()])
                 elif key == 'assume':
                     cur.assume = True
+                elif key == 'unreachable':
+                    # the contract of this arm is meant to be contradictory (the arm is proved dead)
+                    cur.vacuous_ok = True
                 elif key == 'arm':
                     cur = arms.setdefault(norm_pat(arg), Spec())
                 else:
@@ -471,7 +476,7 @@ class Expander:
                 self.out.append('{' + text + '}')
             self.end(vname)
             self.record(rel, qual, s, fn, vname, aspec.assume, arm=np, props=aspec.props)
-            if self.vacuity and not aspec.assume:
+            if self.vacuity and not aspec.assume and not aspec.vacuous_ok:
                 self._twin = True
                 hdr2, _ = self.signature(fn['sig'], aspec, ident + '__vac', cond)
                 self._twin = False
